@@ -85,10 +85,11 @@ class Mod:
         return p
 
     def qualname_of(self, fn: ast.AST) -> str:
-        for q, f in self.funcs.items():
-            if f is fn:
-                return q
-        return getattr(fn, "name", "?")
+        rev = getattr(self, "_rev", None)
+        if rev is None:
+            rev = {id(f): q for q, f in self.funcs.items()}
+            self._rev = rev
+        return rev.get(id(fn), getattr(fn, "name", "?"))
 
     def ancestors(self, node: ast.AST) -> Iterator[ast.AST]:
         p = self.parent.get(node)
